@@ -64,7 +64,7 @@ Fixpoint enc_fields (mo : list (string * string) -> list (string * string))
 Definition dec_field (ns : list string) (kv : list (string * json)) (n : string) (ft : ty) : res val :=
   match ft with
   | TSkip => Ok VUnit
-  | _ => match lookup_f ns n kv with None => Ok (zero ft) | Some x => dec ft x end
+  | _ => dec_occs (dec ft) ft (entries_f ns n kv)
   end.
 
 Fixpoint dec_fields (ns : list string) (kv : list (string * json)) (fs : list field) : res (list val) :=
@@ -121,10 +121,7 @@ Lemma dec_struct_gen : forall ns fs kv,
         | Field _ n _ ft :: fr =>
             rbind (match ft with
                    | TSkip => Ok VUnit
-                   | _ => match lookup_f ns n kv with
-                          | None => Ok (zero ft)
-                          | Some x => dec ft x
-                          end
+                   | _ => dec_occs (dec ft) ft (entries_f ns n kv)
                    end)
                   (fun v => rbind (go fr) (fun vs => Ok (v :: vs)))
         end) fs) = rmap VStruct (dec_fields ns kv fs).
@@ -144,20 +141,31 @@ Proof.
   apply existsb_exists. exists k. split; [exact H|apply String.eqb_eq; reflexivity].
 Qed.
 
-Lemma lookup_f_exact : forall ns n kv, (forall k, In k (keys kv) -> In k ns) ->
-  lookup_f ns n kv = lookup n kv.
+Lemma lookup_notin : forall n kv, ~ In n (keys kv) -> lookup n kv = None.
 Proof.
-  intros ns n kv. induction kv as [|[k j] r IH]; intros H; [reflexivity|].
-  cbn [lookup_f lookup]. rewrite IH by (intros k' Hk'; apply H; right; exact Hk').
-  rewrite (resolve_exact ns k) by (apply H; left; reflexivity). reflexivity.
+  intros n kv. induction kv as [|[k j] r IH]; intros H; [reflexivity|].
+  simpl in *. rewrite IH by tauto.
+  destruct (String.eqb k n) eqn:E; [|reflexivity]. apply String.eqb_eq in E. tauto.
 Qed.
 
-Lemma dec_fields_exact : forall ns kv fs, (forall k, In k (keys kv) -> In k ns) ->
+Lemma entries_f_exact : forall ns n kv, (forall k, In k (keys kv) -> In k ns) -> NoDup (keys kv) ->
+  entries_f ns n kv = match lookup n kv with Some j => [j] | None => [] end.
+Proof.
+  intros ns n kv. induction kv as [|[k j] r IH]; intros H Hnd; [reflexivity|].
+  cbn [entries_f lookup]. inversion Hnd as [|? ? Hni Hnd']; subst.
+  rewrite IH by (try exact Hnd'; intros k' Hk'; apply H; right; exact Hk').
+  rewrite (resolve_exact ns k) by (apply H; left; reflexivity).
+  destruct (String.eqb k n) eqn:E.
+  - apply String.eqb_eq in E. subst k. rewrite (lookup_notin n r Hni). reflexivity.
+  - destruct (lookup n r); reflexivity.
+Qed.
+
+Lemma dec_fields_exact : forall ns kv fs, (forall k, In k (keys kv) -> In k ns) -> NoDup (keys kv) ->
   dec_fields ns kv fs = dec_fields_x kv fs.
 Proof.
-  intros ns kv fs H. induction fs as [|[g n om ft] fr IH]; [reflexivity|].
+  intros ns kv fs H Hnd. induction fs as [|[g n om ft] fr IH]; [reflexivity|].
   cbn [dec_fields dec_fields_x]. rewrite IH. unfold dec_field, dec_field_x.
-  rewrite (lookup_f_exact ns n kv H). reflexivity.
+  rewrite (entries_f_exact ns n kv H Hnd). destruct (lookup n kv); reflexivity.
 Qed.
 
 Lemma wf_struct_eq : forall fs vs, wf (TStruct fs) (VStruct vs) = wf_fields fs vs.
